@@ -63,6 +63,73 @@ func StructFieldsOf(prog *ssa.Program) map[string][][2]string {
 	return out
 }
 
+// TypeAlias maps the present full name of a struct type recognised as renamed to its baseline name.
+var TypeAlias = map[string]string{}
+
+// typeAliases recognises renamed struct types: a baseline struct that is gone and exactly one new struct of the
+// same package with the same field list (names and types, types compared after substituting the candidate name).
+func typeAliases(prog *ssa.Program) []string {
+	base := map[string][][2]string{}
+	for _, l := range strings.Split(baselineFields, "\n") {
+		parts := strings.Split(strings.TrimSpace(l), "\t")
+		if len(parts) == 3 && !strings.HasPrefix(l, "#") {
+			base[parts[0]] = append(base[parts[0]], [2]string{parts[1], parts[2]})
+		}
+	}
+	if len(base) == 0 {
+		return nil
+	}
+	now := StructFieldsOf(prog)
+	pkgOf := func(full string) string { return full[:strings.LastIndex(full, ".")] }
+	key := func(fs [][2]string, self, as string) string {
+		var b strings.Builder
+		for _, f := range fs {
+			b.WriteString(f[0] + ":" + strings.ReplaceAll(f[1], self, as) + ";")
+		}
+		return b.String()
+	}
+	var notes []string
+	for old, ofs := range base {
+		if _, still := now[old]; still {
+			continue
+		}
+		var cands []string
+		for nw, nfs := range now {
+			if _, was := base[nw]; was || pkgOf(nw) != pkgOf(old) || len(nfs) != len(ofs) {
+				continue
+			}
+			if key(nfs, nw, old) == key(ofs, old, old) {
+				cands = append(cands, nw)
+			}
+		}
+		if len(cands) == 1 {
+			dup := false
+			for o2 := range base {
+				if o2 != old {
+					if _, still := now[o2]; !still && pkgOf(o2) == pkgOf(old) && key(base[o2], o2, "T") == key(ofs, old, "T") {
+						dup = true
+					}
+				}
+			}
+			if !dup {
+				TypeAlias[cands[0]] = old
+				notes = append(notes, cands[0]+": taken to be the renamed type "+old)
+			}
+		}
+	}
+	sort.Strings(notes)
+	return notes
+}
+
+// canonName is fn.String() with renamed receiver types put back.
+func canonName(fn *ssa.Function) string {
+	n := fn.String()
+	for nw, old := range TypeAlias {
+		n = strings.ReplaceAll(n, nw+")", old+")")
+	}
+	return n
+}
+
 // fieldAliases recognises renamed fields: in a struct that still exists, a baseline field that is gone and
 // exactly one new field of the same type (which matches no other vanished field) are the same field.
 func fieldAliases(prog *ssa.Program) []string {
@@ -78,6 +145,9 @@ func fieldAliases(prog *ssa.Program) []string {
 		return nil
 	}
 	for T, now := range StructFieldsOf(prog) {
+		if a, ok := TypeAlias[T]; ok {
+			T = a
+		}
 		was, ok := base[T]
 		if !ok {
 			continue
@@ -197,20 +267,25 @@ func TopLevelSourceFuncs(prog *ssa.Program) []*ssa.Function {
 // normalise brings the program into the analysis normal form, in place.
 func normalise(prog *ssa.Program) (map[*ssa.Function]bool, *ssa.VerifNorm, []string, error) {
 	fns := TopLevelSourceFuncs(prog)
-	renames := fieldAliases(prog)
+	renames := typeAliases(prog)
+	renames = append(renames, fieldAliases(prog)...)
 	// Renamed functions: a baseline function that no longer exists and exactly one new function with the same
 	// package, receiver and signature (parameter names aside), which in turn matches no other vanished function,
 	// is taken to be that function under a new name and gets its old name back for the rules.
 	if len(baselineSet) > 0 {
 		present := map[string]bool{}
 		for _, fn := range fns {
-			present[fn.String()] = true
+			present[canonName(fn)] = true
 		}
 		type cand struct{ fn *ssa.Function }
 		newBy := map[string][]*ssa.Function{} // owner + sig -> new functions
 		for _, fn := range fns {
-			if !baselineSet[fn.String()] {
-				k := owner(fn.String()) + "|" + SigKey(fn.Signature)
+			if !baselineSet[canonName(fn)] {
+				sk := SigKey(fn.Signature)
+				for nw, old := range TypeAlias {
+					sk = strings.ReplaceAll(sk, nw, old)
+				}
+				k := owner(canonName(fn)) + "|" + sk
 				newBy[k] = append(newBy[k], fn)
 			}
 		}
@@ -232,7 +307,7 @@ func normalise(prog *ssa.Program) (map[*ssa.Function]bool, *ssa.VerifNorm, []str
 	}
 	glue := map[*ssa.Function]bool{}
 	for _, fn := range fns {
-		if (!baselineSet[fn.String()] || transparent[fn.String()]) && fn.Name() != "init" && !strings.HasPrefix(fn.Name(), "init#") && fn.Name() != "main" {
+		if (!baselineSet[canonName(fn)] || transparent[canonName(fn)]) && fn.Name() != "init" && !strings.HasPrefix(fn.Name(), "init#") && fn.Name() != "main" {
 			glue[fn] = true
 		}
 	}
